@@ -758,7 +758,8 @@ class Plane(Generic[LTComponentT]):
     """
 
     def __init__(self, bbox: Rect, gridsize: int = 50) -> None:
-        self._seq: List[LTComponentT] = []  # preserve the object order.
+        # preserve the object order (insertion-ordered, no duplicates).
+        self._seq: Dict[LTComponentT, None] = {}
         self._objs: Set[LTComponentT] = set()
         self._grid: Dict[Point, List[LTComponentT]] = {}
         self.gridsize = gridsize
@@ -801,7 +802,11 @@ class Plane(Generic[LTComponentT]):
             else:
                 r = self._grid[k]
             r.append(obj)
-        self._seq.append(obj)
+        if obj not in self._objs:
+            # an object that is added again after it was removed counts as
+            # inserted now
+            self._seq.pop(obj, None)
+        self._seq[obj] = None
         self._objs.add(obj)
 
     def remove(self, obj: LTComponentT) -> None:
